@@ -122,6 +122,35 @@ def gen_overlap(rng):
     return {"src": "overlap", "steps": steps}
 
 
+def gen_nested(rng):
+    """user code inside a layer's on_close gives up the last handle of ANOTHER span: that span's whole close (and cascade)
+    runs nested inside the first one; both must end up closed and gone"""
+    steps = [{"op": "switch", "t": 1, "r": 1}, {"op": "switch", "t": 2, "r": 1}]
+    n = 0
+
+    def new(t, pk, p=0):
+        nonlocal n
+        n += 1
+        steps.append({"op": "new", "t": t, "pk": pk, "p": p})
+        return n
+    for _ in range(rng.randint(1, 3)):
+        t = rng.choice([1, 1, 2])
+        p = new(t, "root") if rng.random() < 0.6 else None
+        s = new(t, "of", p) if p and rng.random() < 0.6 else new(t, "root")
+        q = new(t, "root") if rng.random() < 0.4 else None
+        y = new(t, "of", rng.choice([x for x in (p, q) if x])) if (p or q) and rng.random() < 0.7 else new(t, "root")
+        kids = [new(t, "of", y)] if rng.random() < 0.3 else []        # y has an open child: its nested drop closes nothing yet
+        if rng.random() < 0.3:
+            steps.append({"op": "event", "t": t, "pk": "of", "p": y})
+        steps.append({"op": "drop", "t": t, "s": s, "then": y})
+        for k in kids:
+            steps.append({"op": "drop", "t": t, "s": k})
+        for x in (p, q):
+            if x:
+                steps.append({"op": "drop", "t": rng.choice([1, 2]), "s": x})
+    return {"src": "nested", "steps": steps}
+
+
 def execute(behs, name):
     w = vlib.workdir(name)
     vlib.write_ndjson(w / "behaviours.ndjson", behs)
@@ -167,17 +196,22 @@ def run(out, tier, prop):
     behs = plain + decorate([json.loads(json.dumps(b)) for b in behs[1::2]], rng)
     for _ in range(40 if quick else 400):
         behs.append(gen_overlap(rng))
+    for _ in range(40 if quick else 400):
+        behs.append(gen_nested(rng))
     if prop == "C05":
         # reference-count race at the granularity of try_close's atomics: the model, its negative control, and real threads
         r = vlib.require_ok(vlib.tlc(D, "RefCountRace", cfg="RefCountRace", workers=2, timeout=300), "RefCountRace")
         out.add_tlc(r, "RefCountRace exhaustive: 3 holders releasing the last references concurrently (fetch_sub / decide), AtMostOnce, ExactlyOnceAtEnd")
         if vlib.tlc(D, "RefCountRace", cfg="RefCountRaceNeg", workers=2, timeout=300).ok:
             raise vlib.ToolError("negative control: a non-atomic decrement-then-load was not detected by AtMostOnce")
-        # the CloseGuard protocol (deferred slot removal) with closes overlapping across threads, and its negative control
+        # the CloseGuard protocol (deferred slot removal) with closes overlapping across threads and nested inside on_close;
+        # negative controls: a registry-wide counter, and the per-thread frame counter the code used before finding F29 was repaired
         r = vlib.require_ok(vlib.tlc(D, "CloseGuard", cfg="CloseGuard", workers=2, timeout=300), "CloseGuard")
-        out.add_tlc(r, "CloseGuard exhaustive: 3 threads x 2 closes each through 3 Layered frames, every interleaving of start_close / on_close / guard drop; ReadableDuringClose, ClearedAfterClose")
+        out.add_tlc(r, "CloseGuard exhaustive: 2 threads x 3 closes each through 3 Layered frames, closes nested inside on_close, every interleaving of start_close / on_close / guard drop; ReadableDuringClose, ClearedAfterClose")
         if vlib.tlc(D, "CloseGuard", cfg="CloseGuardNeg", workers=2, timeout=300).ok:
             raise vlib.ToolError("negative control: a registry-wide close counter was not detected by ClearedAfterClose")
+        if vlib.tlc(D, "CloseGuard", cfg="CloseGuardF29", workers=2, timeout=300).ok:
+            raise vlib.ToolError("negative control: the per-thread frame counter (finding F29) was not detected by ClearedAfterClose")
         # ... and for ANY number of holders, by the proof system (an inductive invariant; not a bounded check)
         n = vlib.tlapm(D, "RefCountRaceProof")
         out.extra["tlaps_obligations_proved"] = n
